@@ -311,45 +311,54 @@ Definition finish_list (env : nat) (chainArg : val) (kwargs : kwargs_t) (elems :
   else '(d, _) <- eval_prop "digest" chainArg ;;
        callval env d [chainArg; vArr elems] kwargs.
 
-(* The three loops. [h] is the per-element handler (the rest of the middleware stack). *)
-Fixpoint list_loop (n : nat) (env : nat) (it : val) (keep_nil : bool)
+(* The three loops. [h] is the per-element handler (the rest of the middleware stack);
+   [nxt] advances the iterator. The loops are written over an explicit iterator state
+   [S] so that their laws can be stated for any iterator; the interpreter instantiates
+   them with [real_next] (S = unit: the position lives in the interpreter state). *)
+Fixpoint list_loop {S : Type} (n : nat) (nxt : S -> M (option (val * S))) (s : S) (keep_nil : bool)
          (h : val -> M val) (acc : list val) : M (list val) :=
   match n with
   | O => nofuel
-  | S k => o <- iter_next env it ;;
+  | S k => o <- nxt s ;;
            match o with
            | None => ret (rev acc)
-           | Some x => e <- h x ;;
-                       if negb keep_nil && is_nil_type e then list_loop k env it keep_nil h acc
-                       else list_loop k env it keep_nil h (e :: acc)
+           | Some (x, s') => e <- h x ;;
+                       if negb keep_nil && is_nil_type e then list_loop k nxt s' keep_nil h acc
+                       else list_loop k nxt s' keep_nil h (e :: acc)
            end
   end.
 
-Fixpoint reduce_loop (n : nat) (env : nat) (it : val) (h : val -> val -> M val) (acc : val) : M val :=
+Fixpoint reduce_loop {S : Type} (n : nat) (nxt : S -> M (option (val * S))) (s : S)
+         (h : val -> val -> M val) (acc : val) : M val :=
   match n with
   | O => nofuel
-  | S k => o <- iter_next env it ;;
+  | S k => o <- nxt s ;;
            match o with
            | None => ret acc
-           | Some x => a <- h acc x ;; reduce_loop k env it h a
+           | Some (x, s') => a <- h acc x ;; reduce_loop k nxt s' h a
            end
   end.
 
 (* literal-call `~$`: a nil or failed step keeps the accumulator *)
-Fixpoint thoughtful_reduce_loop (n : nat) (env : nat) (it : val) (h : val -> val -> M val) (acc : val) : M val :=
+Fixpoint thoughtful_reduce_loop {S : Type} (n : nat) (nxt : S -> M (option (val * S))) (s : S)
+         (h : val -> val -> M val) (acc : val) : M val :=
   match n with
   | O => nofuel
-  | S k => o <- iter_next env it ;;
+  | S k => o <- nxt s ;;
            match o with
            | None => ret acc
-           | Some x => r <- catch (h acc x) ;;
+           | Some (x, s') => r <- catch (h acc x) ;;
                        match r with
-                       | inl a => if is_nil_type a then thoughtful_reduce_loop k env it h acc
-                                  else thoughtful_reduce_loop k env it h a
-                       | inr _ => thoughtful_reduce_loop k env it h acc
+                       | inl a => if is_nil_type a then thoughtful_reduce_loop k nxt s' h acc
+                                  else thoughtful_reduce_loop k nxt s' h a
+                       | inr _ => thoughtful_reduce_loop k nxt s' h acc
                        end
            end
   end.
+
+(* the interpreter's iterator: `next` through property lookup *)
+Definition real_next (env : nat) (it : val) (_ : unit) : M (option (val * unit)) :=
+  o <- iter_next env it ;; ret (option_map (fun x => (x, tt)) o).
 
 Definition lonely (base : val -> M val) (recv : val) : M val :=
   if is_nil_type recv then ret recv else base recv.
@@ -375,11 +384,11 @@ Definition prop_chain (env : nat) (add : addchain) (main : mainchain) (chainArg 
   | ListC =>
       it <- iter_of env recv ;;
       let keep := match add with Strict | Thoughtful => true | _ => false end in
-      els <- list_loop fuel env it keep (additional add (base args)) [] ;;
+      els <- list_loop fuel (real_next env it) tt keep (additional add (base args)) [] ;;
       finish_list env chainArg kwargs els
   | Reduce =>
       it <- iter_of env recv ;;
-      reduce_loop fuel env it (fun acc x => additional add (base (x :: args)) acc) chainArg
+      reduce_loop fuel (real_next env it) tt (fun acc x => additional add (base (x :: args)) acc) chainArg
   end.
 
 (* literalCallArgs *)
@@ -427,13 +436,13 @@ Definition lit_chain (env : nat) (add : addchain) (main : mainchain) (chainArg r
   | ListC =>
       it <- iter_of env recv ;;
       let keep := match add with Strict | Thoughtful => true | _ => false end in
-      els <- list_loop fuel env it keep (additional add base) [] ;;
+      els <- list_loop fuel (real_next env it) tt keep (additional add base) [] ;;
       finish_list env chainArg [] els
   | Reduce =>
       it <- iter_of env recv ;;
       match add with
-      | Thoughtful => thoughtful_reduce_loop fuel env it (fun acc x => base (vArr [acc; x])) chainArg
-      | _ => reduce_loop fuel env it (fun acc x => additional add base (vArr [acc; x])) chainArg
+      | Thoughtful => thoughtful_reduce_loop fuel (real_next env it) tt (fun acc x => base (vArr [acc; x])) chainArg
+      | _ => reduce_loop fuel (real_next env it) tt (fun acc x => additional add base (vArr [acc; x])) chainArg
       end
   end.
 
